@@ -3,9 +3,9 @@ CFG = {
     "harness": "c14",
     "theorems": [("C14.Props", [
         "C14_index_cursor", "C14_linked_cursor", "C14_linkedkv_cursor", "C14_tree_cursor", "C14_treeset_cursor",
-        "C14_each_visits_reported", "C14_past_end_idempotent", "C14_heap_root_first"])],
+        "C14_each_visits_reported", "C14_past_end_idempotent", "C14_heap_root_first", "C14_heap_cursor", "C14_heap_each_permutation"])],
     "check_modules": ["C14.Check"],
-    "level_text": "Proof: each iterator is transcribed into Gallina as the code is written (index machine; index + element pointer with nil dereference as Panic; red-black/AVL node pointers as paths with Parent = drop last step; treeset's index counter beside the tree iterator; B-tree node path + entry relocated by key search; heap level sort) and proved, for every content, every tree shape and EVERY command word over Next/Prev/First/Last/Begin/End/NextTo/PrevTo, to produce exactly the outputs of the specification cursor over the reported sequence, never panicking; Each-style enumeration visits exactly that sequence. The theorems are stated on Check.model_run, the very function evaluated (vm_compute) against what the Go iterators returned on every run, together with the specification cursor itself (kind 2). Partial: the B-tree iterator and 'heap iteration is a permutation' have no theorem yet (correspondence + spec judgement only).",
+    "level_text": "Proof: each iterator is transcribed into Gallina as the code is written (index machine; index + element pointer with nil dereference as Panic; red-black/AVL node pointers as paths with Parent = drop last step; treeset's index counter beside the tree iterator; B-tree node path + entry relocated by key search; heap level sort) and proved, for every content, every tree shape and EVERY command word over Next/Prev/First/Last/Begin/End/NextTo/PrevTo, to produce exactly the outputs of the specification cursor over the reported sequence, never panicking; Each-style enumeration visits exactly that sequence. The theorems are stated on Check.model_run, the very function evaluated (vm_compute) against what the Go iterators returned on every run, together with the specification cursor itself (kind 2). Heap/priority-queue iterators are proved to be a cursor over their own level-sorted enumeration, which is a permutation of the heap array with the root first. Partial: the B-tree iterator has no theorem yet (correspondence + spec judgement only).",
     "level_note": "Trusted: Coq kernel; hand-written models tied by the differential run (containers built by random operation sequences, shapes dumped through exported fields; wrappers whose tree is unexported are modelled on a spine carrying the reported sequence, justified by C14_tree_cursor holding for every shape); Go harness. Any/All/Find/Select/Map are judged against list functions of the reported sequence (Map only for lists). Iterator behaviour under concurrent modification is out of scope of the property.",
     "trusted": ["linkedhashmap Value() = table[key] is modelled as the value aligned with the key's position (unique keys: C09)"],
     "modelled": ["B-tree iterator: modelled and tied, not proved", "binaryheap.Iterator.Value level sort modelled by insertion sort of the level slice"],
